@@ -184,9 +184,9 @@ def update_merge(current_value, new_value):
         shared keys, the value in ``new_value`` is used.
     """
     update = current_value.copy()
-    for k, v in current_value.items():
-        new = new_value.get(k)
-        if isinstance(new, dict):
+    for k, new in new_value.items():
+        v = update.get(k)
+        if isinstance(v, dict) and isinstance(new, dict):
             update[k] = deep_merge(copy.deepcopy(v), new)
         else:
             update[k] = new
